@@ -73,6 +73,10 @@ CLAIMED = {
    text="Undeclared.tla gives the verdict (flag / must not flag / open) per (expression form, statement context, binding form, visibility of the name) and the quick-fix postconditions; TLC enumerates the three groups; warnings are checked on the real library with their exact position; for 19 function shapes the real binary is driven publishDiagnostics -> codeAction -> edit applied -> CPython parse, parameter of the same function, every other function ast-equal, didChange -> warning gone, and the same postconditions are checked for the completion item's additionalTextEdits.",
    note="270 + 280 library cases, 38 LSP sessions; uses the statement does not list (f-strings, keyword arguments, ...) are only judged when flagged wrongly; known findings are matched by (symptom, input class).",
    technique="TLA+ verdict table (TLC) + library replay + real-binary quick-fix round trip validated with CPython"),
+ "C18": dict(level=MC, ref="DESIGN.md section 4 C18",
+   text="Completion.tla defines Ctx(role, kind) and Offered(kind, scope, declared) and TLC checks OfferedSound / NoneOutside over cursor-line role x function kind x fixture scope x declared set; every case is one textDocument/completion request to the real binary in a workspace with conftest fixtures of all five scopes, same-file fixtures and third-party fixtures from a venv entry point; labels, uniqueness, sortText rank and the parameter edit of body items are compared; incomplete forms are reached by didChange from a valid version.",
+   note="20 line roles (15 valid, 5 incomplete) x {test, fixture x 5 scopes, helper} x 3 declared sets = 292 sessions; blank lines after a body are not judged.",
+   technique="TLA+ context / offered-set algebra (TLC) + completion requests to the real binary"),
  "C19": dict(level=MC, ref="DESIGN.md section 4 C19",
    text="Lsp.tla specifies lastPublished per document under open/change notifications and the effective configuration; TLC enumerates every history x configuration variant and checks TracksLatest, RemovingCauseClears, ConfigExact, PartialConfigKeepsRest; every maximal history is one stdio session of the real server binary; after each notification the published diagnostics are compared with the specification's codes and with a library-level twin analysis of the same contents.",
    note="2 documents x 4 versions (each cause introduced/removed, unparsable text), histories <= 3 (quick) / 4 (thorough), 21+ pyproject.toml variants incl. alternative TOML spellings; wrong value types are not judged.",
